@@ -13,6 +13,7 @@ GenInit == Init /\ stim = <<>>
 GenNext ==
     \/ REvent /\ stim' = Append(stim, [op |-> "event"])
     \/ RConsume /\ stim' = Append(stim, [op |-> "consume"])
+    \/ RawEvent /\ stim' = Append(stim, [op |-> "rawevent", kind |-> chan'[Len(chan')].kind, id |-> chan'[Len(chan')].id])
     \/ \E n \in Nets :
          \/ NConnect(n) /\ stim' = Append(stim, [op |-> "connect", n |-> n, cid |-> nets[n].cid, clean |-> nets[n].clean, will |-> WillJson(nets[n].will)])
          \/ NFinish(n) /\ stim' = Append(stim, [op |-> "finish", n |-> n])
